@@ -3549,14 +3549,32 @@ impl PeerConnection {
             // synchronously when setup_direct_rtp_offer is called.
             return;
         }
+        // A closed connection gathers nothing any more. close() publishes Complete for the
+        // waiters, but the gathering loop may still forward an older gatherer state over it
+        // before it notices the stop - so the wait also ends on Closed itself.
+        let mut closed_rx = self.subscribe_peer_state();
+        if *closed_rx.borrow_and_update() == PeerConnectionState::Closed {
+            return;
+        }
         let _ = self.inner.ice_transport.start_gathering();
         let mut rx = self.subscribe_ice_gathering_state();
         loop {
-            if *rx.borrow_and_update() == IceGatheringState::Complete {
+            if *rx.borrow_and_update() == IceGatheringState::Complete
+                || *closed_rx.borrow_and_update() == PeerConnectionState::Closed
+            {
                 return;
             }
-            if rx.changed().await.is_err() {
-                return;
+            tokio::select! {
+                res = rx.changed() => {
+                    if res.is_err() {
+                        return;
+                    }
+                }
+                res = closed_rx.changed() => {
+                    if res.is_err() {
+                        return;
+                    }
+                }
             }
         }
     }
